@@ -301,7 +301,30 @@ impl std::fmt::Write for NullWriter {
     }
 }
 
+/// String leaves that take the emitter's special paths (quoting, literal blocks, indentation
+/// indicators): put at the bottom of short and long chains.
+pub const LEAVES: [&str; 20] = [
+    " a\nb", "a\n b", "\na", "a\n", "a\n\n", "\t a\nb", "a: b\nc", "- a\nb", "#a\nb", "a\r\nb", " ", "", "a\nb ", "\n", "  a\n  b\n", "a\u{85}b", "a\u{2028}b\nc", "'\"\n", "|\n", "a\n\u{feff}b",
+];
+
 fn tree_for(shape: &str, d: usize) -> Yaml<'static> {
+    if let Some(spec) = shape.strip_prefix("tree-leaf:") {
+        // tree-leaf:<seq|map>:<leaf index>
+        let mut it = spec.split(':');
+        let seq = it.next() == Some("seq");
+        let leaf = LEAVES[it.next().and_then(|k| k.parse::<usize>().ok()).unwrap_or(0) % LEAVES.len()];
+        let mut n = Yaml::Value(Scalar::String(leaf.into()));
+        for _ in 0..d {
+            n = if seq {
+                Yaml::Sequence(vec![n])
+            } else {
+                let mut m = saphyr::Mapping::new();
+                m.insert(Yaml::Value(Scalar::String("k".into())), n);
+                Yaml::Mapping(m)
+            };
+        }
+        return n;
+    }
     let d = effective_depth(shape, d);
     let mut n = if shape == "tree-seq-2leaf" {
         // the innermost collection has a SECOND entry: the emitter writes one indentation of the
@@ -880,6 +903,17 @@ fn grid(cfg: &Config, known: &[Known]) -> Vec<Scn> {
         for api in TREE_APIS {
             for d in depths_for(&mut r) {
                 v.push(Scn { shape: shape.into(), depth: d, api: api.into() });
+            }
+        }
+    }
+    // every special string leaf at the bottom of short chains (and one long one), emitted with
+    // every option: what the emitter decides per leaf must not depend on where the leaf sits
+    for kind in ["seq", "map"] {
+        for (li, _) in LEAVES.iter().enumerate() {
+            for d in [0usize, 1, 2, 3, 4, 5, 6, 7, 9, 12, 33, 100, 1000] {
+                for api in ["emit", "emit:multiline", "emit:noncompact"] {
+                    v.push(Scn { shape: format!("tree-leaf:{kind}:{li}"), depth: d, api: api.into() });
+                }
             }
         }
     }
